@@ -82,11 +82,14 @@ type SolveOpts struct {
 	All     bool // run every solver and require agreement
 	WorkDir string
 	Keep    bool
+	Retry   bool
 }
 
 var reSafeName = regexp.MustCompile(`[^A-Za-z0-9_.\-]+`)
 
 func solveOne(o *Obligation, opt SolveOpts, idx int) {
+	t0 := time.Now()
+	defer func() { o.Secs = time.Since(t0).Seconds() }()
 	q, err := o.query(true)
 	if err != nil {
 		o.Status = "error"
@@ -103,6 +106,11 @@ func solveOne(o *Obligation, opt SolveOpts, idx int) {
 	want := "unsat"
 	if o.Cover {
 		want = "sat"
+		// a contradiction among assumptions shows up quickly as unsat; proving satisfiability in the
+		// presence of quantifiers is hard for the solvers and not needed: only "unsat" is a vacuity alarm
+		if opt.Secs > 3 && !opt.All {
+			opt.Secs = 3
+		}
 	}
 	finish := func(r solveResult) bool {
 		o.Secs += r.secs
@@ -227,6 +235,33 @@ func solveAll(obls []*Obligation, opt SolveOpts, workers int) {
 	}
 	close(ch)
 	wg.Wait()
+	// second round for obligations no solver answered: a few at a time, three times the budget.
+	// (Under the parallel load of the first round a proof that needs a second or two can miss its slot.)
+	var again []int
+	for i, o := range obls {
+		if o.Status == "undecided" && !o.Cover {
+			again = append(again, i)
+		}
+	}
+	if len(again) == 0 || opt.Retry {
+		return
+	}
+	opt2 := opt
+	opt2.Secs = opt.Secs * 3
+	opt2.Retry = true
+	sem := make(chan struct{}, 3)
+	var wg2 sync.WaitGroup
+	for _, i := range again {
+		wg2.Add(1)
+		go func(i int) {
+			defer wg2.Done()
+			sem <- struct{}{}
+			defer func() { <-sem }()
+			obls[i].Raw = ""
+			solveOne(obls[i], opt2, i)
+		}(i)
+	}
+	wg2.Wait()
 }
 
 // parseModel reads "(get-value ...)" output: ((term value) (term value) ...)
